@@ -7,10 +7,50 @@ hooks = [l.split()[0] for l in HOOK_COMMITS if "verif hook" in l]
 
 # id -> (technique, level text, level note, design ref, engine)
 CHECKS = {
+ "C01": ("round-trip property-based testing (proptest) over generated sessions and message sequences + exhaustive 36x4 suite/mode sweep",
+         "Generated-input search with shrinking over sessions (36 sealing suites x 4 modes), 1..12 messages with edge-biased lengths and mixed allocating/in-place APIs; the 144 suite/mode cells are enumerated on every run. Exploration: inputs are unbounded.",
+         "Oracle is the round trip itself (sender vs receiver of the same library) plus the RFC length relation; key pairs come from the independent reference model or the library.",
+         "DESIGN.md section 4 C01", "hv"),
  "C02": ("differential property-based testing against an independent RFC 9180 reference model (proptest) + exhaustive suite x mode sweep + RFC/golden vector replay",
          "Generated-input search with shrinking: thousands of sessions over all 48 suites x 4 modes, hpke as sender and as receiver, compared byte-for-byte with an independent reference; the 192 suite/mode cells, 6 verified RFC anchors and 243 golden vectors are enumerated completely on every run. Exploration, not proof: the input space is unbounded.",
          "Trusts sha2, aes-gcm, chacha20poly1305 and the reference's reading of the RFC (pinned at start-up by 6 published vectors and 243 vectors from an independent Python implementation).",
          "DESIGN.md section 4 C02", "hv"),
+ "C03": ("differential property-based testing of DeriveKeyPair/Encap/Decap against own HKDF + own curve arithmetic; exhaustive ikm-length sweep; golden retry-path inputs",
+         "Generated ikm / key pairs / RNG streams for the 4 KEMs x {plain, auth}; every ikm length 0..=300 and 64 KiB swept; the P-256 DeriveKeyPair retry path is reached through two committed golden inputs found by offline search.",
+         "Trusts sha2 and the self-checked arithmetic oracle (n*G=O, RFC 7748 vectors, corpus/curves.json). Retry paths for P-384/P-521 are cryptographically unreachable.",
+         "DESIGN.md section 4 C03", "hv"),
+ "C04": ("model-based stateful property testing of the sender's sequence counter with a recording AEAD (nonce observed directly) + boundary sweep + long public-API runs",
+         "Generated seal histories with hook jumps to every byte-carry boundary and to 2^64-1; the nonce handed to a user-defined recording AEAD is compared absolutely with stored base nonce XOR BE(i); on the real AEADs the ciphertext is compared with AEAD(key_ref, expected nonce); limit, latch and untouched buffer are checked against an abstract model after every step.",
+         "2^64 positions are sampled at all carries/both ends/random interior; positions >= 2^24 only through the verif_set_seq hook; reference key schedule trusted for the real-AEAD comparison.",
+         "DESIGN.md section 4 C04", "hv"),
+ "C05": ("model-based stateful property testing of the receiver: adversarial delivery histories (next/replay/future/tamper/short/garbage) x both APIs, from any start position",
+         "Generated delivery histories interpreted against the implementation and an abstract position model in lock-step; the concrete counter (hook) is compared with the model after every step; every delivery kind x API x boundary position swept.",
+         "Start positions >= 2^24 are reached through the verif_set_seq hook; buffer contents after OpenError are unconstrained (documented).",
+         "DESIGN.md section 4 C05", "hv"),
+ "C06": ("metamorphic property testing: exhaustive single-bit flips, truncations, extensions and cross-message substitutions of generated messages on all four opening interfaces",
+         "Per generated message the whole variant family is enumerated (all bit positions for <=96-byte messages, all tag bits always, every truncation length) and each variant must be rejected with OpenError by open, open_in_place_detached and the two single-shot forms; ~1.8 million open attempts per quick run.",
+         "Bit positions of long messages are sampled; most variants reuse one receiver repositioned through the hook, every 16th uses a fresh receiver.",
+         "DESIGN.md section 4 C06", "hv"),
+ "C07": ("metamorphic property testing: matched baseline + one minimal perturbation of the receiver's setup; exhaustive bit/KDF/AEAD/mode sweeps",
+         "Generated baselines over 48 suites x 4 modes with single-component perturbations (bit flips, boundary shifts between adjacent fields, mode swaps with identical data, equal-size AEAD swap, same-DH different-bytes encapsulated keys); the perturbed receiver must open nothing and export different secrets; positive control first.",
+         "'No shared key material' is observed through open failures and export inequality.",
+         "DESIGN.md section 4 C07", "hv"),
+ "C08": ("adversarial property testing: honest sender vs impostors (other pair, public half only, unauthenticated mode, wrong PSK) over 4 KEMs x {Auth, AuthPsk, Psk}",
+         "Generated sessions with six impostor kinds including the public-half-only sender (a real API call, the pair is taken unchecked) and one-bit PSK differences; honest sender must be accepted, impostor contexts must share nothing with the receiver.",
+         "Acceptance is observed through opens and export equality.",
+         "DESIGN.md section 4 C08", "hv"),
+ "C11": ("differential stateful property testing of export interleaved with seals/opens/failures vs reference LabeledExpand; exhaustive length sweeps around 255*Nh and 2^16",
+         "Generated histories on both roles over 48 suites x 4 modes; every export equals the reference value, is repeatable, unaffected by traffic, Ok iff L <= 255*Nh; export-only seal/open must panic; thorough sweeps every L in 0..=66000 per KDF.",
+         "Trusts sha2 and the reference key schedule (pinned by anchors and golden vectors).",
+         "DESIGN.md section 4 C11", "hv"),
+ "C14": ("differential property testing: single-shot vs composed operations with identical scripted randomness, incl. failure paths; recording AEAD compares the AEAD calls of both routes",
+         "Generated (suite, mode, inputs, fault) cases; results, errors, bytes drawn from the RNG, in-place buffers and tags must be identical on both routes; allocating vs in-place forms compared for seal and open.",
+         "The composed route is the specification.",
+         "DESIGN.md section 4 C14", "hv"),
+ "C15": ("property testing of the PSK bundle constructor over a 65x65 length grid + differential sessions (incl. the empty bundle in PSK modes) vs the reference key schedule",
+         "The constructor rule is checked on all emptiness/length combinations; sessions in all 4 modes x 48 suites are compared with the reference key schedule fed with the bundle's fields, so swapped or ignored fields are visible.",
+         "Trusts the reference key schedule (anchor A.1.2 pins the psk/psk_id roles).",
+         "DESIGN.md section 4 C15", "hv"),
 }
 ALL = ["C%02d" % i for i in range(1, 19)]
 manifest = {
